@@ -17,9 +17,9 @@ from ..symreal.core import S, symarr, vjp, new_session, evalarr
 from ..symreal.discharge import prove_equal
 from ..symreal.pool import run_catalogue
 
-ALPHABET = ["B0", "B1", "B2", "B3", "B4", "BW_last", "BW_prev", "BW_int", "BW_leaf_a", "BWR_last", "BWR_int", "RET_int", "Z_a", "Z_mod", "Z_opt"]
+ALPHABET = ["B0", "B1", "B2", "B3", "B4", "B5", "BW_last", "BW_prev", "BW_int", "BW_leaf_a", "BWR_last", "BWR_int", "RET_int", "Z_a", "Z_mod", "Z_opt"]
 DESCR = {
-    "B0": "r = a * b", "B1": "m = a + b; r = m * a", "B2": "r = sum(a * a)", "B3": "r = <previous result> * b  (reuse of an earlier result)", "B4": "m = exp(b); r = m * c",
+    "B0": "r = a * b", "B1": "m = a + b; r = m * a", "B2": "r = sum(a * a)", "B3": "r = <previous result> * b  (reuse of an earlier result)", "B4": "m = exp(b); r = m * c", "B5": "u = unbind(a); r = u[0] * b + u[1] + a   (multi-output op whose operand is also used directly)",
     "BW_last": "backward(last result, fresh g)", "BW_prev": "backward(previous result, fresh g)", "BW_int": "backward(last interior node m, fresh g)",
     "BW_leaf_a": "a.backward(fresh g)", "BWR_last": "with retain_grads(): backward(last result)", "BWR_int": "with retain_grads(): backward(last interior)",
     "RET_int": "m.retain_grad()", "Z_a": "a.zero_()", "Z_mod": "Module.zero_grad()", "Z_opt": "Optimizer.zero_grad()",
@@ -110,6 +110,9 @@ class World:
             m = F.exp(b)
             self.interiors.append(m)
             self.results.append(m * c)
+        elif ev == "B5":
+            u = F.unbind(a, 0)
+            self.results.append(u[0] * b + u[1] + a)
         elif ev in ("BW_last", "BW_prev", "BW_int", "BW_leaf_a"):
             t = self.target(ev)
             t.backward(self.fresh_g(t.shape))
@@ -363,7 +366,7 @@ def histories(tier, seed):
     maxlen = 3
     for n in range(1, maxlen + 1):
         for h in itertools.product(ALPHABET, repeat=n):
-            if h[0] not in ("B0", "B1", "B2", "B3", "B4", "BW_leaf_a", "Z_a", "Z_mod", "Z_opt"):
+            if h[0] not in ("B0", "B1", "B2", "B3", "B4", "B5", "BW_leaf_a", "Z_a", "Z_mod", "Z_opt"):
                 continue
             if not any(e.startswith("BW") for e in h):
                 continue
@@ -371,7 +374,7 @@ def histories(tier, seed):
     extra = 600 if tier == "quick" else 6000
     for _ in range(extra):
         n = rng.choice([4, 4, 5, 6]) if tier == "thorough" else rng.choice([4, 4, 5])
-        h = [rng.choice(["B0", "B1", "B2", "B3", "B4"])]
+        h = [rng.choice(["B0", "B1", "B2", "B3", "B4", "B5"])]
         while len(h) < n:
             h.append(rng.choice(ALPHABET))
         hs.append(tuple(h))
